@@ -77,6 +77,7 @@ type pyClassSpec struct {
 	Attr    bool
 	Doc     bool
 	Methods []pyFuncSpec
+	Inner   int // 0 none; k > 0: an inner class (Django's `class Meta:`) written after the first k-1 methods
 }
 
 type pyImportSpec struct {
@@ -137,6 +138,9 @@ var pyClassSpecGen = rapid.Custom(func(t *rapid.T) pyClassSpec {
 	c.Attr = rapid.IntRange(0, 3).Draw(t, "classAttribute") == 3
 	c.Doc = rapid.IntRange(0, 4).Draw(t, "classDocstring") == 4
 	c.Methods = rapid.SliceOfN(pyFuncSpecGen, 0, 4).Draw(t, "methods")
+	if rapid.IntRange(0, 4).Draw(t, "innerClass") == 4 && !pbt.Excluded("py_nested_class") {
+		c.Inner = 1 + rapid.IntRange(0, len(c.Methods)).Draw(t, "innerClassAfter")
+	}
 	return c
 })
 
@@ -322,7 +326,23 @@ func renderPy(p pySpec, prefix, path string) PyModule {
 				empty = false
 			}
 			usedM := map[string]bool{}
+			var inner *PyClass
+			writeInner := func() {
+				// an inner class with an attribute and a method; the outer class goes on afterwards
+				ic := PyClass{Name: fmt.Sprintf("%sMeta%d", prefix, d.class+1)}
+				w.line(1, "class "+ic.Name+":")
+				w.line(2, "ordering = \"name\"")
+				w.line(2, "def label(self):")
+				w.line(3, "return self.ordering")
+				ic.Methods = append(ic.Methods, PyFunc{Name: "label"})
+				inner = &ic
+				feats["inner_class"] = true
+				empty = false
+			}
 			for mi, ms := range cs.Methods {
+				if cs.Inner == mi+1 {
+					writeInner()
+				}
 				name := pyMethNames[ms.Name%len(pyMethNames)]
 				for usedM[name] {
 					name += "_again"
@@ -334,8 +354,14 @@ func renderPy(p pySpec, prefix, path string) PyModule {
 				c.Methods = append(c.Methods, renderPyFunc(w, 1, ms, name, true, feats))
 				empty = false
 			}
+			if cs.Inner > len(cs.Methods) {
+				writeInner()
+			}
 			if empty {
 				w.line(1, "pass")
+			}
+			if inner != nil {
+				m.Classes = append(m.Classes, *inner)
 			}
 			m.Classes = append(m.Classes, c)
 			continue
